@@ -519,7 +519,7 @@ func (m *monitors) onRequest(l mqLog) {
 					cached = true
 				}
 			}
-			if cached {
+			if cached && w.cfg.resetThrottle == 0 {
 				w.addViolation("C09", "get-without-subscription", "get request for "+w.absSubject(l.subject[4:])+" without an active event subscription")
 			} else {
 				w.addViolation("C09", "get-for-evicted-entry", "get request for "+w.absSubject(l.subject[4:])+" after its cache entry was evicted (no event subscription)")
@@ -535,7 +535,11 @@ func (m *monitors) onRequest(l mqLog) {
 			return
 		}
 		if m.gone[*p.CID] {
-			w.addViolation("C11", "request-after-disconnect", "request "+w.absSubject(l.subject)+" on behalf of disconnected "+w.cname(*p.CID))
+			key := "request-after-disconnect"
+			if (w.cfg.resetThrottle > 0 || w.cfg.referenceThrottle > 0) && kind == "access" {
+				key += ":throttled" // a re-check waiting in a throttle when the connection closed
+			}
+			w.addViolation("C11", key, "request "+w.absSubject(l.subject)+" on behalf of disconnected "+w.cname(*p.CID))
 		}
 		tok := string(p.Token)
 		if tok == "null" {
@@ -733,6 +737,16 @@ func (w *world) finalChecks() {
 	}
 	// C08: the gateway's direct counts equal the client's successful subscriptions
 	snap := w.serv.VerifSnapshot()
+	// C19: with every request answered nothing may still wait for a throttle slot
+	if (w.cfg.referenceThrottle > 0 || w.cfg.resetThrottle > 0) && len(w.mq.outstanding()) == 0 && w.taint == "" {
+		for _, cs := range snap {
+			for _, s := range cs.Subs {
+				if s.AccessCbs > 0 || s.Flags&1 != 0 {
+					w.addViolation("C19", "access-check-never-started", fmt.Sprintf("%s %s: an access check is still waiting although every request has been answered (throttle slot never handed on)", w.cname(cs.CID), s.RID))
+				}
+			}
+		}
+	}
 	for _, c := range w.clients {
 		if c.closed {
 			continue
